@@ -491,6 +491,11 @@ func main() {
 		return
 	}
 	if len(os.Args) >= 3 && os.Args[1] == "proj" {
+		// read-only: the API view is left out on purpose (GET /api/tags creates the manifests directory)
+		json.NewEncoder(realStdout).Encode(map[string]any{"state": project(os.Args[2])})
+		return
+	}
+	if len(os.Args) >= 3 && os.Args[1] == "projapi" {
 		json.NewEncoder(realStdout).Encode(map[string]any{"state": project(os.Args[2]), "api": hx.Guard(func() any { return apiView(os.Args[2]) })})
 		return
 	}
